@@ -7,6 +7,7 @@ mod gen;
 mod ops;
 mod props;
 mod sandbox;
+mod sched;
 mod util;
 mod workload;
 
